@@ -2,7 +2,7 @@
 
 Near-valid inputs (a valid generated message with 1-3 mutations from the
 property's list: header line without a blank after the colon, non-hex / signed /
-0x / underscore chunk sizes, absolute URLs with out-of-range ports or broken IPv6
+0x / underscore / non-ASCII chunk sizes, bytes >= 0x80 and NUL in start line, header names and values, absolute URLs with out-of-range ports or broken IPv6
 literals, lines longer than 65536 bytes, more than 100 headers, bad request /
 status lines, bad Content-Length, truncation, byte flips, inserted bytes) and
 arbitrary bytes are delivered in fragments
@@ -34,7 +34,8 @@ RULE = ("cases: target in {wsgi server, bare server, client, TLS client} x (vali
 ASSUMPTIONS = ["the WSGI application is a well-behaved echo application", "redirect targets resolve to in-memory connectors "
                "(clienting.tcp.Client / ClientTls are replaced by fake connectors inside the check process)"]
 
-BAD_SIZES = ["-1", "+5", "0x5", "1_0", "", "g", "5 5", "zz", "0x", "-0", "ffffffffffffffffffff"]
+BAD_SIZES = ["-1", "+5", "0x5", "1_0", "", "g", "5 5", "zz", "0x", "-0", "ffffffffffffffffffff",
+             "4\xe9", "\xff", "\x80", "5;e\xff=1", "5;\xe9", "1\x00", "\u0665".encode("utf-8").decode("latin-1"), "5;a=\"\xff\""]
 BAD_TARGETS = ["http://example.com:99999/x", "http://example.com:-1/", "http://[::1/x", "http://[1:2/", "http://exa mple.com/",
                "http://example.com:abc/x", "//[/x", "http://[::1]:8x/", "*", "", "/\xff\xfe", "http://[v1.x]/", "/a?b#c"]
 BAD_STARTS_REQ = ["GET", "GET /", "GET / HTTP/2.0", "FOO / HTTP/1.1", " / HTTP/1.1", "GET / HTTP/1.1 extra", "get / http/1.1",
@@ -42,7 +43,7 @@ BAD_STARTS_REQ = ["GET", "GET /", "GET / HTTP/2.0", "FOO / HTTP/1.1", " / HTTP/1
 BAD_STARTS_RESP = ["HTTP/1.1", "HTTP/1.1 abc OK", "HTTP/1.1 99 Low", "HTTP/1.1 1000 High", "HTTP/2.0 200 OK", "200 OK", "", " ",
                    "HTTP/1.1 200", "XTTP/1.1 200 OK", "HTTP/1.1 -200 OK", "GET / HTTP/1.1", "HTTP/1.1 302 Found",
                    "HTTP/1.1 301 Moved", "HTTP/1.1 100 Continue"]
-BAD_CL = ["-5", "abc", "99999999999999999999", "1e3", "", " 7", "0x10", "+3"]
+BAD_CL = ["-5", "abc", "99999999999999999999", "1e3", "", " 7", "0x10", "+3", "5\xe9", "\xff", "\xb2"]
 
 
 def mutate(spec, muts, kind):
@@ -99,6 +100,20 @@ def mutate(spec, muts, kind):
             le = data.find(b"\n")
             if le >= 0:
                 data[le + 1:le + 1] = b"Content-Length: " + m[1].encode("latin-1") + b"\r\n"
+        elif k == "hiline":
+            # a byte >= 0x80 (or NUL) somewhere in the j-th line of the head (start line, header name or value)
+            e = data.find(b"\r\n\r\n")
+            e2 = data.find(b"\n\n")
+            he = min(x for x in (e, e2, n) if x >= 0)
+            starts = [0] + [i + 1 for i in range(he) if data[i:i + 1] == b"\n"]
+            st_ = starts[m[1] % len(starts)]
+            en = data.find(b"\n", st_)
+            en = he if en < 0 else en
+            pos = st_ + (m[2] % max(1, en - st_ + 1))
+            if m[4]:
+                data[pos:pos + 1] = bytes([m[3]])
+            else:
+                data[pos:pos] = bytes([m[3]])
         elif k == "truncate" and n > 1:
             del data[1 + m[1] % (n - 1):]
         elif k == "flip" and n:
@@ -254,6 +269,8 @@ def mutation(kind):
         st.tuples(st.just("longstart"), st.sampled_from([65537, 70000])),
         st.tuples(st.just("manyheaders"), st.sampled_from([95, 101, 120])),
         st.tuples(st.just("cl"), st.sampled_from(BAD_CL)),
+        st.tuples(st.just("hiline"), st.integers(0, 12), st.integers(0, 60),
+                  st.sampled_from([0x80, 0xe9, 0xff, 0xc3, 0x00, 0xa0, 0xb2]), st.booleans()),
         st.tuples(st.just("truncate"), st.integers(0, 10 ** 6)),
         st.tuples(st.just("flip"), st.integers(0, 10 ** 6), st.integers(0, 255)),
         st.tuples(st.just("insert"), st.integers(0, 10 ** 6), st.binary(min_size=1, max_size=6)),
